@@ -126,7 +126,7 @@ def gen(r, focus, tier="quick"):
         fault = r.choice(faults) if faults and r.random() < 0.8 else r.choice(Chaos.FAULTS)
     cpu_list = [c for c in ([1, 2, 4, 8, 16] if exact else [1, 2, 3, 4, 5, 7, 8, 13]) if c <= cpus] or [1]
     if not exact and r.random() < 0.15:
-        cpu_list = cpu_list + [F(3, 2), F(5, 2)]
+        cpu_list = cpu_list + [c for c in (F(3, 2), F(5, 2), F(7, 2), F(15, 2)) if c <= cpus]
     alloc_w = {"C11": [1, 0, 1, 6], "C04": [3, 3, 2, 3], "C10": [6, 1, 1, 1]}.get(
         focus, r.choice([[5, 2, 1, 1], [2, 4, 2, 1], [3, 1, 1, 3], [8, 1, 1, 0]]))
     knobs = {
